@@ -155,6 +155,13 @@ def main():
             style = E.make_style(seed, v)
             run.case(R.jhash('reader', ad, style), nontrivial(ad), None,
                      lambda: case_reader(run, ad, style), {'kind': 'edif-reader', 'seed': seed, 'ad': ad, 'style': style})
+    if cfg.get('corners'):
+        for name, ad in R.corner_ads('edif'):
+            run.case(R.jhash('corner-api', name), True, None, lambda: case_api(run, ad, 0), {'kind': 'edif-api', 'corner': name, 'order_seed': 0, 'ad': ad})
+            for v in range(2):
+                style = E.make_style('corner', v)
+                run.case(R.jhash('corner-reader', name, style), True, None, lambda: case_reader(run, ad, style),
+                         {'kind': 'edif-reader', 'corner': name, 'ad': ad, 'style': style})
     for z in cfg.get('files', []):
         run.case(R.jhash(os.path.basename(z)), True, {'file': os.path.basename(z)}, lambda: case_file(run, z),
                  {'kind': 'edif-file', 'file': z}, limit=cfg.get('file_limit', 60))
